@@ -29,6 +29,13 @@ META = {
             "design_ref": "DESIGN.md 6/C06", "note": NOTE, "technique": "TLA+ spec + TLC model checking + TLC trace validation of real executions"},
     "C15": {"text": mc("spec/cw3/Cw3.tla + Cw3MC.tla (native and cw20 deposits, refund flag, deposit pool)") + ". Formulas: Propose takes exactly the configured amount of the configured token (funds / cw20 pull), refunds only to the proposer at Execute or (flag) Close, at most once (held history), pool = deposits held, no other balance moves; must-succeed clause: Close of an expired failed proposal with refunds enabled succeeds (ENABLED in MC, drain phase on the real code). Known finding D6 exempted narrowly (stored-Rejected proposals).",
             "design_ref": "DESIGN.md 6/C15", "note": NOTE, "technique": "TLA+ spec + TLC model checking + TLC trace validation of real executions"},
+    "C11": {"text": mc("spec/ics20/Ics20.tla + Ics20MC.tla (channel books, real holdings, in-flight packets, token failure switch, arbitrary counterparty: every voucher shape, amount 0..above outstanding, ack/timeout in any order)")
+                    + ". Formulas: holdings >= sum of outstanding over channels (invariant), paid out <= escrowed per channel and denomination (history inferred from observed holdings), holdings move only by an accepted transfer or a handled packet by exactly the amount, malformed / foreign / over-sized packets release nothing.",
+            "design_ref": "DESIGN.md 6/C11", "note": NOTE, "technique": "TLA+ spec + TLC model checking + TLC trace validation of real executions"},
+    "C12": {"text": mc("spec/ics20/Ics20.tla + Ics20MC.tla, start states fresh and migrated-from-v1 with tokens outstanding") + ". Formulas: outstanding = sent - failed - redeemed (history invariant), success ack iff paid and reduced exactly, error ack changes nothing, receive never aborts, exactly one ICS-20 packet per accepted transfer with amount/denom/sender/receiver/memo/timeout and amount <= 2^64-1, failure acks and timeouts refund.",
+            "design_ref": "DESIGN.md 6/C12", "note": NOTE, "technique": "TLA+ spec + TLC model checking + TLC trace validation of real executions"},
+    "C18": {"text": mc("spec/ics20/Ics20.tla + Ics20MC.tla (governance calls by gov, former gov, strangers; migrate)") + ". Formulas: allow list only loosens (unlimited stays unlimited, u64::MAX distinguished from unlimited), only the governance address allows / hands over, default gas limit only set by migrate, cw20 transfers gated by allow list or default limit, every payout sub-message carries the token's limit or else the default.",
+            "design_ref": "DESIGN.md 6/C18", "note": NOTE, "technique": "TLA+ spec + TLC model checking + TLC trace validation of real executions"},
 }
 
 NOT_APPLICABLE = {
@@ -37,7 +44,7 @@ NOT_APPLICABLE = {
  "C07": "check under construction in this session",
     "C08": "check under construction in this session", "C09": "check under construction in this session",
     "C10": "check under construction in this session", "C11": "check under construction in this session",
-    "C12": "check under construction in this session", "C14": "check under construction in this session",
+    "C14": "check under construction in this session",
  "C16": "check under construction in this session",
     "C17": "check under construction in this session", "C18": "check under construction in this session",
     "C20": "check under construction in this session",
